@@ -26,6 +26,5 @@ PROP = {'pkg': 'github.com/ProjectSerenity/firefly/kernel/mm/pmm',
                  'vmm.EarlyReserveRegion / vmm.Map are replaced through the package seams by host memory and a '
                  'recorder',
                  'frames consumed by the early allocator during Init are learnt from the frames passed to the map seam',
-                 'double frees are exercised only in the sequential lock-discipline probe (a concurrent double free '
-                 'may legitimately free a frame re-allocated to someone else)'],
+                 'concurrent frees of a frame that is free target one frame that provably stays free during the concurrent phase (the highest usable frame, when the workers together never hold as many frames as exist): freeing an arbitrary free frame concurrently could legitimately free a frame that was just re-allocated to someone else'],
  'timeout_quick': 300}
